@@ -93,8 +93,13 @@ fn main() {
             sink.finish(props::c16::RULE, serde_json::json!({}));
         }
         "C08" => {
-            let mut sink = cases::CaseSink::new("C08", "Corr.C08 Corr.BinCorr Model.BinaryStart Model.Joins", &opts.out, 100);
+            let mut sink = cases::CaseSink::new("C08", "Model.Pipe Corr.C01 Corr.C08 Corr.BinCorr Model.BinaryStart Model.Joins", &opts.out, 100);
             props::c08::generate(&opts, &mut sink);
+            // shipping strategies are only visible in whole jobs
+            sink.wrap = Some(("CJoinJob".into(), "C01".into()));
+            let mut r2 = rng::Rng::new(opts.seed ^ 0x88);
+            props::c08::generate_jobs(&mut r2, &mut sink, if opts.thorough { 6 } else { 1 });
+            sink.wrap = None;
             sink.finish(props::c08::RULE, serde_json::json!({}));
         }
         "C05" | "C06" => {
@@ -102,7 +107,7 @@ fn main() {
             // watermark safety (C06); fewer cases per component than in their own checks
             let c05 = opts.prop == "C05";
             let module = if c05 { "Corr.C05" } else { "Corr.C06" };
-            let mut sink = cases::CaseSink::new(&opts.prop, &format!("Corr.BinCorr Model.BinaryStart Model.Joins Model.End Corr.LinkCorr Model.Route Corr.RouteCorr Corr.ZooCorr Corr.C08 Corr.C09 {module}"), &opts.out, 150);
+            let mut sink = cases::CaseSink::new(&opts.prop, &format!("Corr.BinCorr Model.BinaryStart Model.Joins Model.End Corr.LinkCorr Model.Route Corr.RouteCorr Corr.ZooCorr Model.Pipe Corr.C01 Corr.C08 Corr.C09 {module}"), &opts.out, 150);
             let sub = Opts { prop: opts.prop.clone(), thorough: opts.thorough, seed: opts.seed, out: opts.out.clone(), replay: None, scale: 3 };
             sink.wrap = Some(("KStart".into(), "C17".into()));
             props::c17::generate(&sub, &mut sink);
